@@ -2,7 +2,7 @@
 C07 — measurement outcomes follow the Born rule.
 
 MODEL objects: `QReg.getProbabilities` (the weights handed to `WeightedIndex`),
-`QReg.measureMask r mask d` (`d` the drawn basis index), `QReg.normalize`, and the linear part of
+`QReg.measureMask r mask d` (`d` the drawn basis index), `QReg.rescale`, and the linear part of
 `QReg.sampleProposal`. Scalars are the reals.
 
 The random draw is an input of the model. `measure_mask` draws the basis index `d < 2^n` with the
@@ -11,9 +11,17 @@ reported probability `getProbabilities[d] = |ψ_d|² / nrm` (`C07_reported`) and
 (`C07_pushforward`): the probability that measuring the qubits `m` returns `v`.
 `weight r m v = Σ_{i < 2^n, i &&& m = v} |ψ_i|²`.
 
-The chain rule (`C07_chain`) needs the post-measurement state to be the projected one, i.e. the
-non-degenerate branch of `normalize` (collapsed norm above `1e-15`, see the finding in
-`Props/C06`).
+The chain rule (`C07_chain`) needs the post-measurement state to be the projected one. While
+`measure_mask` renormalised with `normalize` that required the collapsed norm to exceed `1e-15`
+(hypothesis `hbig`, see the history in `Props/C06`). With the `rescale` repair the
+post-measurement state is a positive multiple of the projected one for EVERY draw, and
+`C07_conditional`, `C07_chain`, `C07_order` carry no hypothesis on the draw any more. The natural
+positivity condition — the draw is possible, `0 < nrm (r.collapseMask d₁ m₁)`, equivalently
+`0 < weight r m₁ (d₁ &&& m₁)` (`C07_possible`), which holds for every index of non-zero amplitude
+(`C07_drawn_positive`) — is what makes the quotient in `C07_conditional` a genuine conditional
+probability; for an impossible draw (never produced by `WeightedIndex`) the register is the zero
+vector, `C07_conditional` reads `0 / 0 = 0 / 0` (`= 0` in Lean) and `C07_chain` reads `0 = 0`
+(an impossible first outcome makes the joint outcome impossible).
 -/
 import Qvnt.Lemmas.Born
 
@@ -57,7 +65,7 @@ theorem C07_drawn_positive (r : QReg ℝ) (hwf : WF r) (m d : Nat) (hd : d < 2 ^
   outcomeProb_pos_of_drawn r hwf m d hd hp
 
 /-- multiplying the state by a non-zero real changes neither the outcome probabilities nor the
-reported ones (so it does not matter whether `normalize` rescaled) -/
+reported ones (so the factor applied by `rescale` does not matter) -/
 theorem C07_scale_invariant (r r' : QReg ℝ) (lam : ℝ) (hlam : lam ≠ 0) (hwf : WF r)
     (hwf' : WF r') (hq : r'.qNum = r.qNum)
     (h : ∀ i, bufFn r'.psi i = (bufFn r.psi i).scale lam) :
@@ -67,37 +75,51 @@ theorem C07_scale_invariant (r r' : QReg ℝ) (lam : ℝ) (hlam : lam ≠ 0) (hw
 
 /-! ### sequential measurements -/
 
+/-- the draw `d₁` is possible for the qubits `m₁` exactly when the value it yields has positive
+weight (the denominator of `C07_conditional`) -/
+theorem C07_possible (r : QReg ℝ) (hwf : WF r) (m₁ d₁ : Nat) :
+    nrm (r.collapseMask d₁ m₁) = weight r m₁ (d₁ &&& m₁) ∧
+    (0 < nrm (r.collapseMask d₁ m₁) ↔ 0 < outcomeProb r m₁ (d₁ &&& m₁)) := by
+  have he := nrm_collapse_eq_weight r hwf d₁ m₁
+  refine ⟨he, ?_⟩
+  rw [outcomeProb_eq, ← he]
+  constructor
+  · intro h
+    exact div_pos h (lt_of_lt_of_le h (nrm_collapse_le r d₁ m₁))
+  · intro h
+    rcases (nrm_nonneg (r.collapseMask d₁ m₁)).eq_or_lt with h0 | h0
+    · rw [← h0, zero_div] at h
+      exact absurd h (lt_irrefl 0)
+    · exact h0
+
 /-- after measuring `m₁` with draw `d₁`, the probability that the disjoint set `m₂` reads `v₂` is
-the conditional probability -/
+the conditional probability (for every draw; the denominator is positive iff the draw is possible,
+`C07_possible`) -/
 theorem C07_conditional (r : QReg ℝ) (hwf : WF r) (m₁ d₁ m₂ v₂ : Nat)
-    (hin : m₁ &&& r.qMask = m₁) (hd : m₁ &&& m₂ = 0) (h2 : v₂ &&& m₂ = v₂)
-    (hbig : RegConsts.tiny < Real.sqrt (nrm (r.collapseMask d₁ (m₁ &&& r.qMask)))) :
+    (hin : m₁ &&& r.qMask = m₁) (hd : m₁ &&& m₂ = 0) (h2 : v₂ &&& m₂ = v₂) :
     outcomeProb (r.measureMask m₁ d₁).1 m₂ v₂
       = weight r (m₁ ||| m₂) (d₁ &&& m₁ ||| v₂) / weight r m₁ (d₁ &&& m₁) :=
-  outcomeProb_measure r hwf m₁ d₁ m₂ v₂ hin hd h2 hbig
+  outcomeProb_measure r hwf m₁ d₁ m₂ v₂ hin hd h2
 
 /-- chain rule: measuring `m₁` (result `v₁`) and then the disjoint `m₂` (result `v₂`) has the
 probability of reading `v₁ ||| v₂` on `m₁ ||| m₂` in one measurement -/
 theorem C07_chain (r : QReg ℝ) (hwf : WF r) (m₁ m₂ d₁ v₁ v₂ : Nat)
     (hin : m₁ &&& r.qMask = m₁) (hd : m₁ &&& m₂ = 0) (hv₁ : d₁ &&& m₁ = v₁)
-    (hv₂ : v₂ &&& m₂ = v₂)
-    (hbig : RegConsts.tiny < Real.sqrt (nrm (r.collapseMask d₁ (m₁ &&& r.qMask)))) :
+    (hv₂ : v₂ &&& m₂ = v₂) :
     outcomeProb r m₁ v₁ * outcomeProb (r.measureMask m₁ d₁).1 m₂ v₂
       = outcomeProb r (m₁ ||| m₂) (v₁ ||| v₂) := by
   subst hv₁
-  exact outcomeProb_chain r hwf m₁ d₁ m₂ v₂ hin hd hv₂ hbig
+  exact outcomeProb_chain r hwf m₁ d₁ m₂ v₂ hin hd hv₂
 
 /-- the joint distribution does not depend on the order in which the two sets are measured -/
 theorem C07_order (r : QReg ℝ) (hwf : WF r) (m₁ m₂ d₁ d₂ : Nat)
-    (hin₁ : m₁ &&& r.qMask = m₁) (hin₂ : m₂ &&& r.qMask = m₂) (hd : m₁ &&& m₂ = 0)
-    (hbig₁ : RegConsts.tiny < Real.sqrt (nrm (r.collapseMask d₁ (m₁ &&& r.qMask))))
-    (hbig₂ : RegConsts.tiny < Real.sqrt (nrm (r.collapseMask d₂ (m₂ &&& r.qMask)))) :
+    (hin₁ : m₁ &&& r.qMask = m₁) (hin₂ : m₂ &&& r.qMask = m₂) (hd : m₁ &&& m₂ = 0) :
     outcomeProb r m₁ (d₁ &&& m₁) * outcomeProb (r.measureMask m₁ d₁).1 m₂ (d₂ &&& m₂)
       = outcomeProb r m₂ (d₂ &&& m₂) * outcomeProb (r.measureMask m₂ d₂).1 m₁ (d₁ &&& m₁) := by
   have a1 : (d₁ &&& m₁) &&& m₁ = d₁ &&& m₁ := by rw [Nat.and_assoc, Nat.and_self]
   have a2 : (d₂ &&& m₂) &&& m₂ = d₂ &&& m₂ := by rw [Nat.and_assoc, Nat.and_self]
-  rw [C07_chain r hwf m₁ m₂ d₁ _ _ hin₁ hd rfl a2 hbig₁,
-    C07_chain r hwf m₂ m₁ d₂ _ _ hin₂ (by rw [Nat.and_comm]; exact hd) rfl a1 hbig₂,
+  rw [C07_chain r hwf m₁ m₂ d₁ _ _ hin₁ hd rfl a2,
+    C07_chain r hwf m₂ m₁ d₂ _ _ hin₂ (by rw [Nat.and_comm]; exact hd) rfl a1,
     Nat.or_comm m₂ m₁, Nat.or_comm (d₂ &&& m₂)]
 
 /-! ### the histogram sampler -/
@@ -136,15 +158,26 @@ example : demoReg.getProbabilities[1]? = some (16 / 25) := by
   simp only [Cx.normSq]
   norm_num
 
-/-- the hypotheses of `C07_chain` for `(3/5, 4/5)`, `m₁ = 1`, draw `1`, `m₂ = 0` -/
-example : outcomeProb demoReg 1 1 * outcomeProb (demoReg.measureMask 1 1).1 0 0
-    = outcomeProb demoReg (1 ||| 0) (1 ||| 0) :=
-  C07_chain demoReg (qubitReg_wf _ _) 1 0 1 1 0 rfl rfl rfl rfl demoReg_nondeg_one
+/-- the hypotheses of `C07_chain` for `(3/5, 4/5)`, `m₁ = 1`, draw `1` (a possible one), `m₂ = 0` -/
+example : 0 < outcomeProb demoReg 1 (1 &&& 1) ∧
+    outcomeProb demoReg 1 1 * outcomeProb (demoReg.measureMask 1 1).1 0 0
+      = outcomeProb demoReg (1 ||| 0) (1 ||| 0) :=
+  ⟨(C07_possible demoReg (qubitReg_wf _ _) 1 1).2.1 demoReg_pos_one,
+   C07_chain demoReg (qubitReg_wf _ _) 1 0 1 1 0 rfl rfl rfl rfl⟩
 
-/-- two qubits, `(3/5, 4/5) ⊗ (3/5, 4/5)`: measure qubit 0 (draw `|11>`, result 1), then qubit 1 -/
-example : outcomeProb pairReg 1 1 * outcomeProb (pairReg.measureMask 1 3).1 2 2
-    = outcomeProb pairReg (1 ||| 2) (1 ||| 2) :=
-  C07_chain pairReg pairReg_wf 1 2 3 1 2 rfl rfl rfl rfl pairReg_nondeg
+/-- two qubits, `(3/5, 4/5) ⊗ (3/5, 4/5)`: measure qubit 0 (draw `|11>`, result 1, of positive
+probability: the identity is not `0 = 0`), then qubit 1 -/
+example : 0 < outcomeProb pairReg 1 (3 &&& 1) ∧
+    outcomeProb pairReg 1 1 * outcomeProb (pairReg.measureMask 1 3).1 2 2
+      = outcomeProb pairReg (1 ||| 2) (1 ||| 2) :=
+  ⟨(C07_possible pairReg pairReg_wf 1 3).2.1 pairReg_pos,
+   C07_chain pairReg pairReg_wf 1 2 3 1 2 rfl rfl rfl rfl⟩
+
+/-- … and the conditional probability of `C07_conditional` has a positive denominator there -/
+example : 0 < weight pairReg 1 (3 &&& 1) ∧ outcomeProb (pairReg.measureMask 1 3).1 2 2
+    = weight pairReg (1 ||| 2) (3 &&& 1 ||| 2) / weight pairReg 1 (3 &&& 1) :=
+  ⟨by rw [← (C07_possible pairReg pairReg_wf 1 3).1]; exact pairReg_pos,
+   C07_conditional pairReg pairReg_wf 1 3 2 2 rfl rfl rfl⟩
 
 /-- a fair coin: `p = (1/2, 1/2)` gives the covariance `[[1/4, −1/4], [−1/4, 1/4]]` -/
 example : let p : Fin 2 → ℝ := fun _ => 1 / 2
